@@ -29,7 +29,7 @@ ASSUME = ["at the end every open buffer equals its file", "no preprocessor macro
 
 def plan(tier):
     if tier == "quick":
-        return {"ncases": 640, "nshards": 16, "budget_s": 80, "floor": 100000, "stall_s": 70}
+        return {"ncases": 640, "nshards": 16, "budget_s": 80, "floor": 50000, "stall_s": 70}
     return {"ncases": 6000, "nshards": 16, "budget_s": 2400, "floor": 1500000, "stall_s": 300}
 
 
